@@ -6,4 +6,5 @@ INVARIANT WithinRecordedSize
 INVARIANT Hazards
 INVARIANT Judge
 INVARIANT Done
+INVARIANT WallJudge
 CHECK_DEADLOCK FALSE
